@@ -109,6 +109,18 @@ class Event(Base):
     def forest(self) -> Iterable["Node"]: ...
 '''
 
+# history: a second collection class, registered only after the shard has already followed types through many queries
+LATE_SRC = '''
+@register_func_adl_os_collection
+class LateColl(ObjectStreamInternalMethods[T]):
+    def __init__(self, a, item_type=Any):
+        super().__init__(a, item_type)
+    def Leading(self) -> T: ...
+    def SumPt(self) -> float: ...
+    def Pairs(self) -> Iterable[Pair[T, T]]: ...
+'''
+LATE = [False]
+
 # ---- the harness's own type machinery (independent of func_adl.util_types) ------------------
 
 
@@ -223,7 +235,7 @@ class TGen:
             e = elem_of(t)
             choices = []
             if e is not None:
-                choices += ["First", "Count", "len", "sub0", "Where", "Select", "own"]
+                choices += ["First", "Count", "len", "sub0", "Where", "Select", "own", "regop"]
             if t is NS["Info"]:
                 choices += ["field", "fieldsub"]
             ms = [m for m in self.methods(t) if m[0] not in ("Last",) or True]
@@ -242,6 +254,13 @@ class TGen:
                     break
                 if typing.get_args(t) or inherited:
                     self.interesting = True
+                text, t = f"{text}.{name}()", rt
+            elif c == "regop":
+                # operators that registered collection classes add to every sequence (RegColl from the start, LateColl later)
+                ops = [("Last", e)] + ([("Leading", e), ("SumPt", float), ("Pairs", typing.Iterable[NS["Pair"][e, e]])] if LATE[0] else [])
+                name, rt = r.choice(ops)
+                self.interesting = True
+                self.regops = getattr(self, "regops", 0) + (1 if name != "Last" else 0)
                 text, t = f"{text}.{name}()", rt
             elif c == "First":
                 text, t = f"{text}.First()", e
@@ -397,6 +416,8 @@ def judge_stage(ctx, stream, cur_t, rnd):
         return None
     ctx.case(key, nt)
     ctx.count("op:" + op)
+    if getattr(g, "regops", 0):
+        ctx.count("late-registered-operator-uses", g.regops)
     if not same_type(got, exp_t):
         how = "Any" if got is Any else "other"
         ctx.violation(f"wrong-type:{op}:{how}", f"{op}({text}) on a stream of {cur_t}: got {got}, annotations imply {exp_t}", witness)
@@ -417,10 +438,15 @@ def shard_main(ctx):
         async def execute_result_async(self, a, title=None):
             return a
 
+    late_at = 150 if ctx.tier != "thorough" else 3000
     for i in range(N_CASES[ctx.tier]):
         if ctx.out_of_time():
             ctx.count("stopped-by-time-budget")
             break
+        if i == late_at and not LATE[0]:
+            exec(compile(LATE_SRC, "<c08late>", "exec"), NS)
+            LATE[0] = True
+            ctx.count("collection-class-registered-after-queries")
         rnd = random.Random((ctx.seed * 1000 + ctx.shard) * 100003 + i + 8)
         stream, t = DS(NS["Event"]), NS["Event"]
         for stage in range(rnd.randint(1, 4)):
